@@ -252,6 +252,17 @@ func (lf *lenFacts) onePerIteration(P *ssa.Phi) (ssa.Value, *ssa.BasicBlock, boo
 			if k, ok := core.ConstInt(iv.Len); !ok || k != 0 {
 				return nil, nil, false
 			}
+		case *ssa.Slice:
+			// make([]T, 0, constant): a slice [:0] of a fresh array
+			arr, isArr := derefArray(iv.X.Type())
+			_, fresh := iv.X.(*ssa.Alloc)
+			hi, hasHi := int64(-1), false
+			if iv.High != nil {
+				hi, hasHi = core.ConstInt(iv.High)
+			}
+			if !isArr || !fresh || iv.Low != nil || !((hasHi && hi == 0) || arr.Len() == 0) {
+				return nil, nil, false
+			}
 		default:
 			return nil, nil, false
 		}
